@@ -85,3 +85,30 @@ Print Assumptions flate_reader_closed_is_inert.
 Theorem flate_reader_close_midstream_closes_nothing : ~ fl_closed_inert_any_state_statement.
 Proof. exact fl_closed_inert_any_state_refuted. Qed.
 Print Assumptions flate_reader_close_midstream_closes_nothing.
+
+From V Require Meta.ReaderImpl Meta.ReaderImplSim Meta.ReaderImplThms.
+Module MetaReaderImplE.
+Import Base.Prelude Base.Prog Flate.Impl Flate.ImplRel Meta.Model Meta.Stream Meta.ReaderImpl Meta.ReaderImplSim Meta.ReaderImplThms.
+(* meta.Reader at implementation level, from ANY state: the first error is returned by every later
+   Read with no bytes and nothing changes; after a successful Close every Read returns the closed
+   error; Close is idempotent, touches neither source nor counters, and succeeds exactly when no
+   error other than io.EOF is latched *)
+Theorem meta_reader_closed_means_closed :
+  (forall st n bs e st', mr_read st n = ((bs, Some e), st') ->
+     forall n', mr_read st' n' = (([], Some e), st')) /\
+  (forall st st', mr_close st = (None, st') ->
+     forall n, mr_read st' n = (([], Some EClosed), st')) /\
+  (forall st, mr_close (snd (mr_close st)) = mr_close st) /\
+  (forall st, m_br (snd (mr_close st)) = m_br st /\ m_inOff (snd (mr_close st)) = m_inOff st /\
+              m_outOff (snd (mr_close st)) = m_outOff st /\ m_nblocks (snd (mr_close st)) = m_nblocks st /\
+              m_buf (snd (mr_close st)) = m_buf st) /\
+  (forall st, match m_err st with
+              | None | Some EEOF => mr_close st = (None, snd (mr_close st)) /\
+                                    m_FinalMode (snd (mr_close st)) = m_final st /\
+                                    m_err (snd (mr_close st)) = Some EClosed
+              | Some EClosed => mr_close st = (None, st)
+              | Some e => mr_close st = (Some e, st)
+              end).
+Proof. exact meta_reader_sticky_closed. Qed.
+Print Assumptions meta_reader_closed_means_closed.
+End MetaReaderImplE.
